@@ -328,3 +328,72 @@ Section FetchSets.
     now rewrite view_fetch_trees.
   Qed.
 End FetchSets.
+
+(* ------------------------------------------------------------------ KIP-31 derived, not assumed.
+   [relocate] / the decoder's [absolute] characterised without their formula: a uniform shift (so every difference
+   between inner offsets is kept), messages untouched, the last one exactly at the wrapper's offset.  These three
+   facts determine the result uniquely. *)
+Lemma last_off_map_shift {A} c (l : list (Z * A)) :
+  last_off (map (fun om => (fst om + c, snd om)) l) = match last_off l with Some o => Some (o + c) | None => None end.
+Proof. unfold last_off. rewrite <- map_rev. destruct (rev l) as [|[o m] r]; reflexivity. Qed.
+
+Lemma relocate_characterised {A} W (l : list (Z * A)) :
+  l <> [] ->
+  exists c, relocate W l = map (fun om => (fst om + c, snd om)) l /\ last_off (relocate W l) = Some W.
+Proof.
+  intros Hne. unfold relocate. destruct (last_off l) as [lo|] eqn:L.
+  - exists (W - lo). assert (E : map (fun om : Z * A => (W - lo + fst om, snd om)) l = map (fun om => (fst om + (W - lo), snd om)) l).
+    { apply map_ext. intros [o m]. cbn [fst snd]. f_equal. lia. }
+    rewrite E. split; [reflexivity|]. rewrite last_off_map_shift, L. f_equal. lia.
+  - exfalso. unfold last_off in L. destruct (rev l) as [|[o m] r] eqn:R; [|discriminate].
+    apply (f_equal (@rev (Z * A))) in R. rewrite rev_involutive in R. now subst.
+Qed.
+
+(* what the broker stored ([broker_batch_v1]: relative offsets a_i - base for ANY base, wrapper at the last absolute
+   offset) comes back at the absolute offsets a_i, for ANY offsets a (dense, with gaps after compaction, first
+   survivor not at the base, ...) *)
+Lemma relocate_broker_batch {A} base (abs : list (Z * A)) :
+  relocate (match last_off abs with Some a => a | None => 0 end) (map (fun am => (fst am - base, snd am)) abs) = abs.
+Proof.
+  unfold relocate. 
+  assert (L : last_off (map (fun am : Z * A => (fst am - base, snd am)) abs)
+              = match last_off abs with Some o => Some (o - base) | None => None end).
+  { unfold last_off. rewrite <- map_rev. destruct (rev abs) as [|[o m] r]; reflexivity. }
+  rewrite L. destruct (last_off abs) as [a|] eqn:La.
+  - rewrite map_map. cbn [fst snd]. rewrite <- (map_id abs) at 2. apply map_ext. intros [o m]. cbn [fst snd]. f_equal. lia.
+  - unfold last_off in La. destruct (rev abs) as [|[o m] r] eqn:R; [|discriminate].
+    apply (f_equal (@rev (Z * A))) in R. rewrite rev_involutive in R. now subst.
+Qed.
+
+Lemma log_of_leaves (l : list (Z * kmsg)) : flat_map log_of (map (fun om => KLeaf (fst om) (snd om)) l) = l.
+Proof. induction l as [|[o m] l IH]; [reflexivity|]. cbn [map flat_map log_of fst snd app]. now rewrite IH. Qed.
+
+Section Kip31.
+  Variable gz : list Z -> list Z.
+  Variable orc : oracle.
+  Hypothesis gz_roundtrip : forall x, gz_dec orc (gz x) = Ok x.
+
+  Theorem broker_batch_v1_recovered d base attr ts key abs :
+    (1 < d)%nat -> wf_ktree gz (broker_batch_v1 base attr ts key abs) = true ->
+    dec_set d orc (enc_ktree gz (broker_batch_v1 base attr ts key abs)) = (view_log abs, None).
+  Proof.
+    intros Hd Hwf. rewrite (tree_rt gz orc gz_roundtrip d _); [|unfold broker_batch_v1; cbn [kdepth]|exact Hwf].
+    - unfold broker_batch_v1. cbn [log_of]. change (1 =? 0) with false. cbv iota.
+      rewrite <- (map_map (fun am => (fst am - base, snd am)) (fun om => KLeaf (fst om) (snd om))), log_of_leaves.
+      now rewrite relocate_broker_batch.
+    - assert (E : fold_right Nat.max 0%nat (map kdepth (map (fun am : Z * kmsg => KLeaf (fst am - base) (snd am)) abs)) = 0%nat).
+      { clear Hwf. induction abs as [|x l IH]; [reflexivity|]. cbn [map fold_right kdepth]. now rewrite IH. }
+      rewrite E. lia.
+  Qed.
+
+  Theorem broker_batch_v0_recovered d attr ts key abs :
+    (1 < d)%nat -> wf_ktree gz (broker_batch_v0 attr ts key abs) = true ->
+    dec_set d orc (enc_ktree gz (broker_batch_v0 attr ts key abs)) = (view_log abs, None).
+  Proof.
+    intros Hd Hwf. rewrite (tree_rt gz orc gz_roundtrip d _); [|unfold broker_batch_v0; cbn [kdepth]|exact Hwf].
+    - unfold broker_batch_v0. cbn [log_of]. change (0 =? 0) with true. cbv iota. now rewrite log_of_leaves.
+    - assert (E : fold_right Nat.max 0%nat (map kdepth (map (fun am : Z * kmsg => KLeaf (fst am) (snd am)) abs)) = 0%nat).
+      { clear Hwf. induction abs as [|x l IH]; [reflexivity|]. cbn [map fold_right kdepth]. now rewrite IH. }
+      rewrite E. lia.
+  Qed.
+End Kip31.
